@@ -7,6 +7,10 @@ interaction added / dropped, all labels replaced = same shape with disjoint labe
 (and their perturbations: constraint label, sense, rhs, one lhs bias, permuted orders, a variable that
 occurs in no expression), numbers, and non-model objects.  Every ordered pair is examined.
 
+Also: numbers as operands of `==` / `!=` on EITHER side (Python int / float, NumPy scalars; `model == 3` builds a
+comparison whose truth value is taken), and `==` / `!=` on the mapping views `m.linear`, `m.adj`, `m.adj[v]`, `m.quadratic`
+(view vs view, view vs plain dict, plain dict vs view; keys of the quadratic dict in either orientation) for every class mix.
+
 (i)  correspondence: `is_equal`, `is_almost_equal`, `==`, `!=` on the real objects vs the Lean model
      (`lean/DimodModel/Equality.lean`, driver `eqdriver`) — value or exception class;
 Canonical form (what "the same quadratic biases" means, for `is_equal` and — "behaves the same with biases
@@ -346,6 +350,12 @@ def call(f):
         return 'raise:' + type(e).__name__
     if isinstance(v, (bool, np.bool_)):
         return 'T' if v else 'F'
+    if isinstance(v, dimod.sym.Eq):
+        # `model == number` builds the comparison Eq(model, number); its truth value is what `if model == 3:` sees
+        try:
+            return 'T' if bool(v) else 'F'
+        except Exception as e:  # noqa
+            return 'raise:' + type(e).__name__
     return 'nonbool:' + type(v).__name__
 
 
@@ -447,6 +457,93 @@ def one_round(ctx, r, lines, expect, meta):
                              f'{expr} = {got} with A a {a.cls} [{ta}] and B a {b.cls} [{tb}]; canonical forms say {want}',
                              repro=rep, detail=dict(a=a.src, b=b.src))
     # symmetry is implied by agreement with the (symmetric) predicate on both orders; nothing else to do
+    number_operands(ctx, r, pool, lines, expect, meta)
+    mapping_views(ctx, r, pool, lines, expect, meta)
+
+
+def number_operands(ctx, r, pool, lines, expect, meta):
+    """`model == x`, `x == model`, `model != x`, `x != model` for Python and NumPy numbers (truth value where a comparison is built)"""
+    nums = [b for b, _ in pool if b.kind == 'num']
+    for a, ta in pool:
+        if a.kind in ('num', 'other'):
+            continue
+        for b in nums:
+            x = b.spec
+            forms = [float(x), np.float64(float(x))] + ([int(x)] if x.denominator == 1 else [])
+            n = r.choice(forms)
+            nsrc = f'np.float64({float(x)!r})' if isinstance(n, np.floating) else repr(n)
+            wa, wb = wire(a), wire(b)
+            # a BQM / QM equals a number iff it has no variables and that offset; views and CQMs define no `==`: identity
+            e = expected(a, b) if a.kind in ('bqm', 'qm') else None
+            for op, f, line, expr, want in (
+                    ('opeq', lambda: a.obj == n, f'opeq 0 {wa} {wb}', f'(A == {nsrc})', e),
+                    ('opeq', lambda: n == a.obj, f'opeq 0 {wb} {wa}', f'({nsrc} == A)', e),
+                    ('opne', lambda: a.obj != n, f'opne 0 {wa} {wb}', f'(A != {nsrc})', None if e is None else not e),
+                    ('opne', lambda: n != a.obj, f'opne 0 {wb} {wa}', f'({nsrc} != A)', None if e is None else not e)):
+                got = call(f)
+                ctx.tick(f'number operand {op}:' + got[:7])
+                lines.append(line); expect.append(EXC.get(got, got)); meta.append((op, a.cls, 'number', ta, 'number'))
+                ctx.case((line,), nontrivial=True)
+                if want is None:
+                    continue
+                if got not in ('T', 'F') or (got == 'T') != want:
+                    meth = '__eq__' if op == 'opeq' else '__ne__'
+                    ctx.fail('property', f'{a.cls}.{meth}', 'number operand' + (' on the left' if expr.startswith('(' + nsrc) else ''),
+                             f'bool{expr} = {got} with A a {a.cls} [{ta}]; A.is_equal({nsrc}) says {want if op == "opeq" else not want}',
+                             repro=PRE + src_of(a, 'A') + f'res = bool({expr})\nprint(res)\nassert res is {want}, res\n', detail=dict(a=a.src))
+
+
+VIEWS = {'linear': 'Linear', 'adj': 'Adjacency', 'quadratic': 'Quadratic', 'nbh': 'Neighborhood'}
+
+
+def mapping_views(ctx, r, pool, lines, expect, meta):
+    """`==` / `!=` on `m.linear`, `m.adj`, `m.adj[v]`, `m.quadratic` (view vs view, view vs dict, dict vs view) as mapping equality"""
+    models = [(a, t) for a, t in pool if a.kind in ('bqm', 'qm', 'objview', 'conview')]
+    for a, ta in models:
+        for b, tb in models:
+            if r.random() < .45:
+                continue
+            k = r.choice(['linear', 'adj', 'quadratic', 'quadratic', 'nbh'])
+            v = None
+            if k == 'nbh':
+                common = [x for x, _ in a.spec['vars'] if x in dict(b.spec['vars'])]
+                if not common:
+                    k = 'adj'
+                else:
+                    v = r.choice(common)
+            sa, sb = a.spec, b.spec
+            if k == 'linear':
+                want = sa['lin'] == sb['lin']
+                acc, dct = '.linear', 'dict(B.linear)'
+            elif k == 'adj':
+                want = {x for x, _ in sa['vars']} == {x for x, _ in sb['vars']} and sa['quad'] == sb['quad']
+                acc, dct = '.adj', '{u: dict(n) for u, n in B.adj.items()}'
+            elif k == 'quadratic':
+                want = sa['quad'] == sb['quad']
+                acc, dct = '.quadratic', r.choice(['dict(B.quadratic)', '{(q[1], q[0]): x for q, x in B.quadratic.items()}'])
+            else:
+                want = {q: x for q, x in sa['quad'].items() if v in q} == {q: x for q, x in sb['quad'].items() if v in q}
+                acc, dct = f'.adj[{v!r}]', f'dict(B.adj[{v!r}])'
+            form = r.choice(['view == view', 'view == view', 'view == dict', 'dict == view'])
+            lhs, rhs = {'view == view': ('A' + acc, 'B' + acc), 'view == dict': ('A' + acc, dct), 'dict == view': (dct, 'A' + acc)}[form]
+            env = dict(A=a.obj, B=b.obj)
+            kk = k if v is None else f'nbh={lab(v)}'
+            wa, wb = wire(a), wire(b)
+            icls = form
+            if (k in ('adj', 'quadratic') and {x for x, _ in sa['vars']} == {x for x, _ in sb['vars']} and set(sa['quad']) != set(sb['quad'])
+                    and len(sa['quad']) == len(sb['quad'])):
+                icls = 'same variables, same number of interactions, different interaction sets'
+            for op, sym, w in (('veq', '==', want), ('vne', '!=', not want)):
+                expr = f'({lhs} {sym} {rhs})'
+                got = call(lambda: eval(expr, dict(env)))
+                ctx.tick(f'{op} {k} {form}:' + got[:7])
+                lines.append(f'{op} {kk} {wa} {wb}'); expect.append(EXC.get(got, got)); meta.append((op, a.cls, b.cls, ta, tb))
+                ctx.case((op, kk, form, wa, wb), nontrivial=True)
+                if got not in ('T', 'F') or (got == 'T') != w:
+                    rep = PRE + src_of(a, 'A') + (src_of(b, 'B') if a is not b else 'B = A\n') + f'res = {expr}\nprint(res)\nassert res is {w} or res == {w}, res\n'
+                    ctx.fail('property', f'{VIEWS[k]}.{"__eq__" if op == "veq" else "__ne__"}', icls,
+                             f'{expr} = {got} with A a {a.cls} [{ta}] and B a {b.cls} [{tb}]; as mappings they are {"equal" if want else "different"}',
+                             repro=rep, detail=dict(a=a.src, b=b.src))
 
 
 def run(ctx):
@@ -454,7 +551,8 @@ def run(ctx):
     n = ctx.scale(60, 1500)
     ctx.rule = ('rounds of a pool of ~18 objects derived from one random polynomial (class mix BQM/QM/objective view/constraint view/'
                 'CQM/number/other object, permuted orders, float64/float32/object dtype, single-field perturbations, same shape with '
-                'disjoint labels); every ordered pair x {is_equal, is_almost_equal(places), ==, !=}; a case = one call; distinct by (op, wire forms)')
+                'disjoint labels); every ordered pair x {is_equal, is_almost_equal(places), ==, !=}, numbers on either side of == / !=, and '
+                '== / != on the linear / adj / adj[v] / quadratic mapping views (vs views and plain dicts); a case = one call; distinct by (op, wire forms)')
     lines, expect, meta = [], [], []
     # the open question of DESIGN section 5 / C18, answered by the code under test on every run
     a, b = BQM('SPIN'), BQM('BINARY')
@@ -481,8 +579,10 @@ def run(ctx):
         g = got[i] if i < len(got) else 'MISSING'
         if g != expect[i]:
             op, ca, cb, ta, tb = meta[i]
-            meth = {'eq': 'is_equal', 'aeq': 'is_almost_equal', 'opeq': '__eq__', 'opne': '__ne__'}[op]
+            meth = {'eq': 'is_equal', 'aeq': 'is_almost_equal', 'opeq': '__eq__', 'opne': '__ne__', 'veq': '__eq__', 'vne': '__ne__'}[op]
             sites = {f'{ca}.{meth}', f'{cb}.{meth}', f'{ca}.is_equal', f'{cb}.is_equal', f'{ca}.is_almost_equal', f'{cb}.is_almost_equal'}
+            if op in ('veq', 'vne'):
+                sites = {f'{x}.{meth}' for x in VIEWS.values()}
             if sites & explained:
                 if len(ctx.notes) < 5:
                     ctx.notes.append(f'model/impl differ on {op} {ca} vs {cb} — explained by a reported property failure')
